@@ -357,7 +357,7 @@ impl Snapshot {
 
 		// Track the best match (latest version at or before requested timestamp)
 		let mut best_value: Option<Value> = None;
-		let mut best_timestamp: u64 = 0;
+		let mut best_timestamp: Option<u64> = None;
 
 		while iter.valid() {
 			let entry_key = iter.key();
@@ -375,15 +375,21 @@ impl Snapshot {
 
 			let entry_ts = entry_key.timestamp();
 
-			// Only consider versions at or before the requested timestamp
-			if entry_ts <= timestamp && entry_ts >= best_timestamp {
+			// Only consider versions at or before the requested timestamp. Versions
+			// with equal timestamps arrive in descending commit order: the first one
+			// met is the latest write and must not be replaced by an older one.
+			let newer = match best_timestamp {
+				Some(best) => entry_ts > best,
+				None => true,
+			};
+			if entry_ts <= timestamp && newer {
 				if entry_key.is_tombstone() {
 					// Key was deleted at this timestamp
 					best_value = None;
 				} else {
 					best_value = Some(self.core.resolve_value(iter.value_encoded()?)?);
 				}
-				best_timestamp = entry_ts;
+				best_timestamp = Some(entry_ts);
 			}
 
 			iter.next()?;
